@@ -1,2 +1,265 @@
+// C17 thorough: exhaustive enumeration of the failing allocation k over a scenario corpus
+// (DESIGN.md §5 C17).  Every scenario is a short plan with a bystander object that is used
+// before and after the fault and a fresh object created after it.
 #include "exec.h"
-namespace sim { int oomenum_main(int, char **) { return 2; } }
+#include <cstdio>
+#include <cstdlib>
+#include <cstring>
+#include <fstream>
+
+namespace sim {
+
+namespace {
+
+struct Scenario {
+  std::string name;
+  Plan plan;
+  std::vector<int> fault_ops; // indexes of the operations whose allocations are enumerated
+};
+
+Op mk(int task, OpKind k) { Op o; o.task = task; o.kind = k; return o; }
+Op mkset(int task, Setter s, int v) { Op o = mk(task, OP_SET); o.setter = s; o.value = v; return o; }
+
+std::vector<int> chars(const char *s) { std::vector<int> v; for (; *s; s++) v.push_back((unsigned char)*s); return v; }
+
+// bystander grammar/input (always plan grammar 0 / input 0)
+void add_bystander_pre(Plan &p) {
+  p.grammars.push_back(handwritten_good()[0]); // suite-ETF
+  p.inputs.push_back(chars("a+a*(a+a)"));
+  p.ops.push_back(mk(2, OP_CREATE));
+  { Op o = mk(2, OP_DEFINE); o.grammar = 0; p.ops.push_back(o); }
+  { Op o = mk(2, OP_PARSE); o.input = 0; o.alloc = AM_CUSTOM_FREE; p.ops.push_back(o); }
+}
+void add_post(Plan &p) {
+  // the struck object can be freed, the bystander and a new object behave like fresh ones
+  { Op o = mk(2, OP_PARSE); o.input = 0; o.alloc = AM_DEFAULT; p.ops.push_back(o); }
+  p.ops.push_back(mk(1, OP_ERRQ));
+  p.ops.push_back(mk(1, OP_FREE_GRAMMAR));
+  p.ops.push_back(mk(3, OP_CREATE));
+  { Op o = mk(3, OP_DEFINE); o.grammar = 0; p.ops.push_back(o); }
+  { Op o = mk(3, OP_PARSE); o.input = 0; o.alloc = AM_CUSTOM_FREE; p.ops.push_back(o); }
+  { Op o = mk(2, OP_PARSE); o.input = 0; o.alloc = AM_CUSTOM_FREE; p.ops.push_back(o); }
+  p.ops.push_back(mk(2, OP_FREE_GRAMMAR));
+  p.ops.push_back(mk(3, OP_FREE_GRAMMAR));
+}
+
+std::vector<Scenario> build_corpus() {
+  std::vector<Scenario> out;
+  const auto &good = handwritten_good();
+  const auto &bad = handwritten_bad();
+  static const int knob_sets[] = {0, 1, 2};
+  // generated grammars with a fixed seed: part of the corpus definition
+  std::vector<GrammarSpec> gen;
+  {
+    Rng r(20260928);
+    for (int i = 0; i < 6; i++) gen.push_back(gen_grammar(r));
+  }
+  for (int knobs : knob_sets) {
+    // 1. create
+    {
+      Scenario s;
+      s.name = "create/knobs" + std::to_string(knobs);
+      s.plan.cfg.knobs = knobs;
+      add_bystander_pre(s.plan);
+      s.fault_ops.push_back((int)s.plan.ops.size());
+      s.plan.ops.push_back(mk(1, OP_CREATE));
+      add_post(s.plan);
+      out.push_back(s);
+    }
+    // 2. definitions: good and defective, both routes
+    std::vector<const GrammarSpec *> defs;
+    for (auto &g : good) defs.push_back(&g);
+    for (auto &g : gen) defs.push_back(&g);
+    for (auto &g : bad) defs.push_back(&g);
+    for (auto *g : defs) {
+      Scenario s;
+      s.name = "define/" + g->tag + (g->text ? "/text" : "/read") + "/knobs" + std::to_string(knobs);
+      s.plan.cfg.knobs = knobs;
+      add_bystander_pre(s.plan);
+      s.plan.grammars.push_back(*g);
+      s.plan.ops.push_back(mk(1, OP_CREATE));
+      if (knobs == 1) s.plan.ops.push_back(mkset(1, S_DEBUG, 4)); // the definition prints rules and sets
+      s.fault_ops.push_back((int)s.plan.ops.size());
+      { Op o = mk(1, OP_DEFINE); o.grammar = 1; s.plan.ops.push_back(o); }
+      // a redefinition of a defined object is a different path (empty, then define)
+      if (g->expect == 0 && knobs != 2) {
+        s.fault_ops.push_back((int)s.plan.ops.size());
+        { Op o = mk(1, OP_DEFINE); o.grammar = 1; s.plan.ops.push_back(o); }
+      }
+      add_post(s.plan);
+      out.push_back(s);
+    }
+    // 3. parses
+    struct PS { const char *gtag; const char *in; int one, cost, rec; const char *what; };
+    static const PS ps[] = {
+        {"suite-ETF", "a+a*(a*a+a)", 1, 0, 1, "sentence"},
+        {"suite-ETF", "a+a*(a*+a", 1, 0, 1, "recovery"},
+        {"suite-ETF", "a++a", 1, 0, 0, "norecovery"},
+        {"suite-ETF", "a+a,a", 1, 0, 1, "invalid-token"},
+        {"ambig-E", "a+a*a+a", 0, 0, 1, "all-parses"},
+        {"ambig-E", "a+a*a", 1, 0, 1, "one-of-ambiguous"},
+        {"cost-E", "a+a*a+a", 0, 1, 1, "cost-all"},
+        {"cost-E", "a*a+a", 1, 1, 1, "cost-one"},
+        {"cost-ABC", "ab", 1, 1, 1, "cost-pruning"},
+        {"nullable", "ac", 0, 0, 1, "nullable"},
+        {"hidden-lr", "aaxbb", 1, 0, 1, "hidden-left-recursion"},
+        {"err-stmts", "i;xi;i;", 1, 0, 1, "error-rule"},
+        {"alt-deep", "aaaa", 0, 1, 1, "deep-alternatives"},
+        {"read-sparse", nullptr, 1, 0, 1, "sparse-codes"},
+    };
+    for (auto &x : ps) {
+      const GrammarSpec *g = nullptr;
+      for (auto &gg : good) if (gg.tag == x.gtag) g = &gg;
+      if (!g) continue;
+      for (int la = 0; la <= 2; la++) {
+        for (int am = 0; am < 3; am++) {
+          if (knobs != 0 && am == 1) continue;      // alloc-without-free only with shipped sizes
+          if (la == 0 && am == 2 && knobs == 2) continue;
+          Scenario s;
+          static const char *amn[] = {"custom+free", "custom", "default"};
+          s.name = std::string("parse/") + x.what + "/la" + std::to_string(la) + "/" + amn[am] + "/knobs" + std::to_string(knobs);
+          s.plan.cfg.knobs = knobs;
+          add_bystander_pre(s.plan);
+          s.plan.grammars.push_back(*g);
+          if (x.in) s.plan.inputs.push_back(chars(x.in));
+          else s.plan.inputs.push_back({7, 300, 20000, 7, 300, 7, 20007});
+          s.plan.ops.push_back(mk(1, OP_CREATE));
+          if (la != 1) s.plan.ops.push_back(mkset(1, S_LOOKAHEAD, la));
+          if (!x.one) s.plan.ops.push_back(mkset(1, S_ONE_PARSE, 0));
+          if (x.cost) s.plan.ops.push_back(mkset(1, S_COST, 1));
+          if (!x.rec) s.plan.ops.push_back(mkset(1, S_RECOVERY, 0));
+          if (la == 2 && am == 0) s.plan.ops.push_back(mkset(1, S_DEBUG, 3));
+          { Op o = mk(1, OP_DEFINE); o.grammar = 1; s.plan.ops.push_back(o); }
+          if (la == 2) { // a second parse on the same object is a different path at lookahead 2
+            Op o = mk(1, OP_PARSE); o.input = 1; o.alloc = AM_CUSTOM_FREE; s.plan.ops.push_back(o);
+          }
+          s.fault_ops.push_back((int)s.plan.ops.size());
+          { Op o = mk(1, OP_PARSE); o.input = 1; o.alloc = (AllocMode)am; s.plan.ops.push_back(o); }
+          add_post(s.plan);
+          out.push_back(s);
+        }
+      }
+    }
+  }
+  return out;
+}
+
+} // namespace
+
+static void print_v(const char *tag, const Violation &v) {
+  printf("V seed=0 prop=%s kind=%s site=%s probe=%d op=%d be=%d detail=%s %s\n", v.prop.c_str(), v.kind.c_str(), esc(v.site).c_str(),
+         v.probe ? 1 : 0, v.op, v.backend, esc(v.detail).c_str(), tag);
+}
+
+int oomenum_main(int argc, char **argv) {
+  int from = 0, to = -1, emit_s = -1, emit_b = 0, emit_op = 0;
+  long emit_k = 0, cap = 4000;
+  bool list = false;
+  int resume_b = 0, resume_op = -1;
+  long resume_k = 0;
+  for (int i = 1; i < argc; i++) {
+    std::string a = argv[i];
+    if (a == "--from" && i + 1 < argc) from = atoi(argv[++i]);
+    else if (a == "--to" && i + 1 < argc) to = atoi(argv[++i]);
+    else if (a == "--list") list = true;
+    else if (a == "--cap" && i + 1 < argc) cap = atol(argv[++i]);
+    else if (a == "--emit" && i + 4 < argc) { emit_s = atoi(argv[i + 1]); emit_b = atoi(argv[i + 2]); emit_op = atoi(argv[i + 3]); emit_k = atol(argv[i + 4]); i += 4; }
+    else if (a == "--resume" && i + 3 < argc) { resume_b = atoi(argv[i + 1]); resume_op = atoi(argv[i + 2]); resume_k = atol(argv[i + 3]); i += 3; }
+  }
+  std::vector<Scenario> corpus = build_corpus();
+  if (list) {
+    printf("SCENARIOS %zu\n", corpus.size());
+    for (size_t i = 0; i < corpus.size(); i++) printf("SCEN %zu %s\n", i, corpus[i].name.c_str());
+    return 0;
+  }
+  if (emit_s >= 0) {
+    if (emit_s >= (int)corpus.size()) return 2;
+    Plan p = corpus[(size_t)emit_s].plan;
+    p.mode = "oomenum";
+    p.seed = (uint64_t)emit_s;
+    p.backends = emit_b;
+    if (emit_k > 0) { p.ops[(size_t)emit_op].fault.type = Fault::ALLOC; p.ops[(size_t)emit_op].fault.k = emit_k; p.ops[(size_t)emit_op].fault.kx = emit_k; }
+    fputs(plan_to_text(p).c_str(), stdout);
+    return 0;
+  }
+  if (to < 0 || to > (int)corpus.size()) to = (int)corpus.size();
+  oracle_start();
+  RunStats total;
+  long runs = 0, clean = 0;
+  for (int si = from; si < to; si++) {
+    const Scenario &sc = corpus[(size_t)si];
+    for (int b = 1; b <= 2; b++) {
+      if (si == from && resume_op >= 0 && b < resume_b) continue;
+      Plan p0 = sc.plan;
+      p0.mode = "oomenum";
+      p0.seed = (uint64_t)si;
+      p0.backends = b;
+      ExecOptions o;
+      printf("ENUM %d %d -1 0\n", si, b);
+      fflush(stdout);
+      RunResult r0 = execute_plan(p0, o);
+      runs++;
+      total.merge(r0.stats);
+      for (auto &v : r0.violations) print_v(("scen=" + std::to_string(si) + " b=" + std::to_string(b) + " op=-1 k=0").c_str(), v);
+      if (r0.violations.empty()) clean++;
+      if (r0.stats.probes.count("run_aborted")) { printf("RECYCLE %d %d -1 0\n", si, b); goto done; }
+      for (int fo : sc.fault_ops) {
+        if (si == from && resume_op >= 0 && b == resume_b && fo < resume_op) continue;
+        long n = b == 1 ? r0.requests_c[fo] : r0.requests_x[fo];
+        // all k; beyond the cap: the first and last cap/8 and a stratified sample in between
+        std::vector<long> ks;
+        if (n <= cap) for (long k = 1; k <= n; k++) ks.push_back(k);
+        else {
+          long edge = cap / 8;
+          for (long k = 1; k <= edge; k++) ks.push_back(k);
+          long mid = cap - 2 * edge;
+          for (long j = 0; j < mid; j++) ks.push_back(edge + 1 + j * (n - 2 * edge) / mid);
+          for (long k = n - edge + 1; k <= n; k++) ks.push_back(k);
+        }
+        printf("SCENINFO %d %d %d requests=%ld enumerated=%zu exhaustive=%d name=%s\n", si, b, fo, n, ks.size(), n <= cap ? 1 : 0, sc.name.c_str());
+        for (long k : ks) {
+          if (si == from && resume_op >= 0 && b == resume_b && fo == resume_op && k <= resume_k) continue;
+          Plan p = p0;
+          p.ops[(size_t)fo].fault.type = Fault::ALLOC;
+          p.ops[(size_t)fo].fault.k = k;
+          p.ops[(size_t)fo].fault.kx = k;
+          printf("ENUM %d %d %d %ld\n", si, b, fo, k);
+          fflush(stdout);
+          RunResult r = execute_plan(p, o);
+          runs++;
+          total.merge(r.stats);
+          bool fired = false;
+          for (auto &kv : r.stats.faults) if (kv.first.compare(0, 6, "alloc@") == 0) fired = true;
+          if (!fired) total.probes["enumerated_fault_did_not_fire"]++;
+          if (r.violations.empty()) clean++;
+          for (auto &v : r.violations) print_v(("scen=" + std::to_string(si) + " b=" + std::to_string(b) + " op=" + std::to_string(fo) + " k=" + std::to_string(k)).c_str(), v);
+          if (r.stats.probes.count("run_aborted")) { printf("RECYCLE %d %d %d %ld\n", si, b, fo, k); goto done; }
+        }
+      }
+    }
+    printf("SCENDONE %d\n", si);
+  }
+done:
+  // stats line (same format as the worker's)
+  {
+    const RunStats &s = total;
+    printf("STATS {\"runs\":%ld,\"clean\":%ld,\"ops\":%ld,\"ops_skipped\":%ld,\"alloc_events\":%ld,\"callbacks\":%ld,\"parses\":%ld,\"parses_ok\":%ld,"
+           "\"defines\":%ld,\"defines_ok\":%ld,\"trees\":%ld,\"twin_queries\":%ld,\"twin_hits\":%ld,\"undecided_large\":%ld,\"denot_compared\":%ld,",
+           runs, clean, s.ops, s.ops_skipped, s.alloc_events, s.callbacks, s.parses, s.parses_ok, s.defines, s.defines_ok, s.trees,
+           s.twin_queries, s.twin_hits, s.undecided_large, s.denot_compared);
+    printf("\"probes\":{");
+    bool first = true;
+    for (auto &kv : s.probes) { printf("%s\"%s\":%ld", first ? "" : ",", kv.first.c_str(), kv.second); first = false; }
+    printf("},\"faults\":{");
+    first = true;
+    for (auto &kv : s.faults) { printf("%s\"%s\":%ld", first ? "" : ",", kv.first.c_str(), kv.second); first = false; }
+    const Totals &t = heap_totals();
+    printf("},\"heap\":{\"allocs\":%ld,\"frees\":%ld,\"realloc_moves\":%ld,\"faults_alloc\":%ld,\"hash_expands\":%ld,\"steps\":%ld}}\n", t.allocs, t.frees,
+           t.realloc_moves, t.faults_alloc, t.hash_expands, t.steps);
+  }
+  fflush(stdout);
+  oracle_stop();
+  return 0;
+}
+
+} // namespace sim
